@@ -1422,7 +1422,9 @@ def check_C20(ctx):
                        "elapsed / average-speed / average-ETA decorators read the wall clock: the dec family brackets the reading and "
                        "skips a case whose expectation differs between the two ends of the bracket"]
     ctx.cov["rule"] += ("; dec family: counters group, elapsed, average speed / ETA, spinner, name, conditional constructors, "
-                        "on-complete-or-on-abort, self-checked against the model-compared size / time / speed formatters")
+                        "on-complete-or-on-abort, the 3-sample median, the two time normalizers of the ETA decorators (they only smooth: the answer "
+                        "is the estimate or the previous answer counted down by wall time), self-checked against the model-compared "
+                        "size / time / speed formatters")
     diff_check(ctx, "fmt", 3000, 200000, {"Base.v", "F64.v", "Percent.v", "SizeFmt.v", "SizeFmtProofs.v", "Props/C20.v"},
                monitor=c20_monitor, classify=lambda case: case[0].split()[0])
     dec_check(ctx, "V")
